@@ -31,6 +31,7 @@ var templates = []string{
 	"resize_not_chunked", "resize_not_resizable", "resize_wrong_rank", "resize_beyond_max", "resize_zero",
 	"attr_nil", "attr_empty_slice", "attr_int", "attr_bool", "attr_struct", "attr_int8_slice", "attr_huge_string", "delattr_absent",
 	"group_attr_nil", "group_33rd_child", "group_name_heap_full",
+	"dense_relative_target", "dense_empty_target", "grouplinks_relative_target", "write_other_float_width", "write_other_float_width",
 	"write_wrong_len_opaque", "write_wrong_len_opaque", "hard_dup_to_link_object", "hard_dup_to_link_object", "delattr_absent_second_handle", "delattr_absent_second_handle",
 }
 
@@ -66,6 +67,7 @@ func setup() []hist.Op {
 		{K: "write", Path: "/k", Seed: 3, Mode: hist.ModeSeq}, {K: "write", Path: "/g/in", Seed: 4, Mode: hist.ModeSeq},
 		// a contiguous opaque dataset, a soft and an external link, each followed directly by another allocation
 		{K: "dataset", Path: "/o", D: &hist.DSpec{Type: "opaque", OpaqueLen: 4, OpaqueTag: "raw", Dims: []uint64{3}}}, {K: "write", Path: "/o", Seed: 5},
+		{K: "dataset", Path: "/f32", D: &hist.DSpec{Type: "f32", Dims: []uint64{3}}}, {K: "write", Path: "/f32", Seed: 8, Mode: hist.ModeSeq},
 		{K: "soft", Path: "/s", Target: "/c"},
 		{K: "dataset", Path: "/after_s", D: &hist.DSpec{Type: "i32", Dims: []uint64{4}}}, {K: "write", Path: "/after_s", Seed: 6, Mode: hist.ModeSeq},
 		{K: "ext", Path: "/e", File: "other.h5", Target: "/x"},
@@ -252,6 +254,27 @@ func bad(ex *hist.Exec, tmpl string, tgt int) (err error, applicable bool) {
 		err = fw.CreateDenseGroup(objPaths[tgt%len(objPaths)], map[string]string{"l": "/c"})
 	case "grouplinks":
 		err = fw.CreateGroupWithLinks("/bad22", map[string]string{"l": "/c"})
+	case "dense_relative_target":
+		err = fw.CreateDenseGroup("/bad23", map[string]string{"l": []string{"c", "g", "keep", "in"}[((tgt%4)+4)%4]})
+	case "dense_empty_target":
+		err = fw.CreateDenseGroup("/bad24", map[string]string{"l": ""})
+	case "grouplinks_relative_target":
+		links := map[string]string{}
+		for k := 0; k < 10; k++ {
+			links[fmt.Sprintf("l%d", k)] = "/c"
+		}
+		links["l3"] = []string{"c", "", "in"}[((tgt%3)+3)%3]
+		err = fw.CreateGroupWithLinks("/bad25", links)
+	case "write_other_float_width":
+		// the right number of elements, of the other floating-point width
+		if tgt%2 == 0 {
+			if h, o := ds("/r"), ex.M.Resolve("/r"); h != nil && o != nil {
+				return h.Write(make([]float32, hist.NumElems(o.Dims))), true
+			}
+		} else if h := ds("/f32"); h != nil {
+			return h.Write(make([]float64, 3)), true
+		}
+		return nil, false
 	case "write_wrong_type":
 		if h := ds(tp); h != nil {
 			return h.Write([]string{"x"}), true
